@@ -1006,6 +1006,8 @@ class Interp:
     def fork_small_index(self, st: State, fid, place):
         """case split on the index of a small constant table of non-scalar entries (enum values, (fn, offset)
         pairs): keeps the correlation between the index and the selected entry"""
+        if self.spec.no_table_fork(st):
+            return None
         try:
             root = ('loc', fid, place['l'])
             path = ()
